@@ -74,6 +74,18 @@ from cattrs.gen._generics import generate_mapping  # noqa: E402
 # =====================================================================================================
 
 
+
+def _sort_unions(a):
+    """canonical annotation with the members of every Union sorted (member order is not an observable of typing)"""
+    if isinstance(a, (list, tuple)):
+        if len(a) == 3 and a[0] == "app" and a[1] == "Union":
+            return ["app", "Union", sorted((_sort_unions(x) for x in a[2]), key=json.dumps)]
+        if len(a) == 2 and a[0] == "pu":   # a PEP 604 union object: equal (==) to the typing.Union of the same members
+            return ["app", "Union", sorted((_sort_unions(x) for x in a[1]), key=json.dumps)]
+        return [_sort_unions(x) for x in a]
+    return a
+
+
 def TV(n):
     return ["tv", n]
 
@@ -1850,8 +1862,10 @@ def alias_round(chk, drv, n, corr_fail, fails):
             if not (hk[0] == "err" and hk[1] == "AttributeError"):
                 corr_fail.append(("ALIAS", case, repr(hk)[:100], rm))
         elif hk[0] == "ok" and dflt and len(dflt) == 1:
-            want = json.dumps(W.canon(W.real(ann_of(parse_sx(rm)[1]))))
-            got = json.dumps(W.canon(dflt[0]))
+            # (typing caches subscriptions by EQUALITY of the arguments and Union[a, b] == Union[b, a]: which member
+            #  order a substituted union shows depends on what the process created earlier -- compared order-free)
+            want = json.dumps(_sort_unions(W.canon(W.real(ann_of(parse_sx(rm)[1])))))
+            got = json.dumps(_sort_unions(W.canon(dflt[0])))
             if want != got and not bad:
                 corr_fail.append(("ALIAS", case, got, rm))
         else:
